@@ -272,6 +272,13 @@ func sgRegisterCodecs(me *MediaEngine, cfg sgPeerCfg) {
 	if r.Bool(0.5) {
 		_ = me.RegisterHeaderExtension(RTPHeaderExtensionCapability{URI: "urn:ietf:params:rtp-hdrext:ssrc-audio-level"}, RTPCodecTypeAudio, RTPTransceiverDirectionRecvonly)
 	}
+	if r.Bool(0.3) {
+		// one URI registered twice for one kind, with different direction restrictions
+		uri := "http://www.ietf.org/id/draft-holmer-rmcat-transport-wide-cc-extensions-01"
+		kind := []RTPCodecType{RTPCodecTypeVideo, RTPCodecTypeAudio}[r.Intn(2)]
+		_ = me.RegisterHeaderExtension(RTPHeaderExtensionCapability{URI: uri}, kind, RTPTransceiverDirectionRecvonly)
+		_ = me.RegisterHeaderExtension(RTPHeaderExtensionCapability{URI: uri}, kind, RTPTransceiverDirectionSendonly)
+	}
 }
 
 var sgDirs = []RTPTransceiverDirection{RTPTransceiverDirectionSendrecv, RTPTransceiverDirectionSendonly, RTPTransceiverDirectionRecvonly, RTPTransceiverDirectionInactive}
